@@ -141,7 +141,7 @@ func init() {
 	}
 	p.Strata = append(p.Strata, mon.Stratum{
 		Name: "random-pairs",
-		N:    qt(40000, 1000000),
+		N:    qt(40000, 5000000),
 		Run: func(c *mon.Ctx, i int) {
 			prof := patchProfiles[i%len(patchProfiles)]
 			a, b := gen.Pair(c.R, prof)
